@@ -444,6 +444,9 @@ func (c *Ctx) Finish(level, rule string, extra map[string]any, assumptions []str
 	if st := os.Getenv("GPV_SECOND_TOOLCHAIN"); st != "" {
 		cov["second_toolchain"] = st
 	}
+	if st := os.Getenv("GPV_FUZZ_SUMMARY"); st != "" {
+		cov["native_fuzzing"] = st
+	}
 	cov["go_version"] = runtime.Version()
 	infra := append([]string(nil), c.infra...)
 	if len(infra) > 0 {
